@@ -15,6 +15,7 @@ mod c16;
 mod provider;
 mod c17;
 mod c18;
+mod c19;
 mod sched;
 mod store;
 mod http;
@@ -85,6 +86,8 @@ fn main() {
         "c16" => c16::run(&opts),
         "c17" => c17::run(&opts),
         "c18" => c18::run(&opts),
+        "c19" => c19::run(&opts),
+        "c19child" => c19::run_child(&opts),
         "c20" => c20::run(&opts),
         other => {
             eprintln!("unknown property {other}");
